@@ -645,3 +645,46 @@ def run_fit(op: Op, U, cfg: Dict[str, Any], constraint: Any, dtype: torch.dtype,
     fr.scale_problems = spy.problems()
     fr.mutated = snap.changed()
     return fr
+
+
+def reference_noise(op: Op, cfg: Dict[str, Any], dtype: torch.dtype, data_seed: int, up_seed: int) -> Dict[str, float]:
+    """How far PyTorch's OWN low-precision result is from the same op evaluated in float64 on the very same (already rounded)
+    inputs: relative to max|.|, for the output ('__out__') and for the gradient of every differentiable input.  Used as a
+    noise floor: a low-precision deviation of the library is only judged if it exceeds a small multiple of what the reference op
+    itself suffers on these inputs (cancellation in tiny normalised dims, few-element tensors ...)."""
+    gen = torch.Generator().manual_seed(data_seed)
+    base = op.build(cfg, gen, dtype)
+
+    def leaf(d, to):
+        out = {}
+        for k, v in d.items():
+            if isinstance(v, torch.Tensor) and v.is_floating_point():
+                t = v.detach().to(to).clone()
+                out[k] = t.requires_grad_(True) if k in op.diff else t
+            elif isinstance(v, torch.Tensor):
+                out[k] = v.clone()
+            else:
+                out[k] = v
+        return out
+
+    lo, hi = leaf(base, dtype), leaf(base, torch.float64)
+    rng_seed = data_seed % (2**31)
+    torch.manual_seed(rng_seed)
+    yl = op.call_ref(lo, cfg, grad_ref=True)
+    torch.manual_seed(rng_seed)
+    yh = op.call_ref(hi, cfg, grad_ref=True)
+    out: Dict[str, float] = {}
+
+    def rel(a, b):
+        sc = max(float(b.abs().max()), 1e-300) if b.numel() else 1.0
+        return float((a.double() - b).abs().max()) / sc if b.numel() else 0.0
+    out["__out__"] = rel(yl.detach(), yh.detach())
+    if yl.requires_grad:
+        g = torch.randn(yl.shape, generator=torch.Generator().manual_seed(up_seed), dtype=torch.float64)
+        yl.backward(g.to(yl.dtype))
+        yh.backward(g.to(yl.dtype).double())
+        for k in op.diff:
+            tl, th = lo.get(k), hi.get(k)
+            if isinstance(tl, torch.Tensor) and tl.grad is not None and th.grad is not None:
+                out[k] = rel(tl.grad, th.grad)
+    return out
